@@ -151,7 +151,7 @@ def build(ctx):
     extract.residue_scan(text, ID)
     kb.ctext = text + HARNESS
     kb.job("shift.rest", "h_shift", defines=["CLASS_REST"], note="loop-free region: complete in the type, the platform widths (16/32 int, 32/64 long), the oracle results and the left operand")
-    kb.job("shift.signed", "h_shift", kind="known", finding="K31.shiftTooManyBitsSigned-error", defines=["CLASS_SIGNED_REPORT"], expect_fail=["h_shift.assertion"],
+    kb.job("shift.signed", "h_shift", kind="known", finding="K31.shiftTooManyBitsSigned-error", props=["C04"], defines=["CLASS_SIGNED_REPORT"], expect_fail=["h_shift.assertion"],
            note="recorded finding class: the shiftTooManyBitsSigned report (shift count == width - 1)")
     kb.job("overflow", "h_overflow", note="loop-free region: complete")
     kb.job("cover", "h_cover", kind="cover")
